@@ -99,3 +99,71 @@ package composite
 //@   ensures [C12] !quit ==> more && called(Done) && called(parentController.sync)
 //@   ensures [C12] !quit && syncErr != nil ==> called(AddRateLimited) && !called(Forget)
 //@   ensures [C12] !quit && syncErr == nil ==> called(Forget) && !called(AddRateLimited)
+
+//@ pred interestedIn(pc, p) = ContainsFinalizer(p, pc.finalizer.Name) || !(pc.parentSelector != nil && !matchesLabelsOf(pc.parentSelector, p))
+
+//@ func parentController.enqueueParentObject(pc, obj) ()
+//@   requires validPC(pc)
+//@   requires typeis(obj, *unstructured.Unstructured) ==> unbox(obj, *unstructured.Unstructured) != nil
+//@   safety C13
+//@   bind call KeyFunc: key, kfErr
+//@   let isParent = typeis(obj, *unstructured.Unstructured)
+//@   let p = unbox(obj, *unstructured.Unstructured)
+//@   at Add(q, item) [C14,C12]: kfErr == nil && typeis(item, string) && unbox(item, string) == key && (isParent ==> interestedIn(pc, p))
+//@   ensures [C14] isParent && !interestedIn(pc, p) ==> !called(Add) && !called(KeyFunc)
+//@   ensures [C14] (!isParent || interestedIn(pc, p)) ==> called(KeyFunc) && (kfErr == nil ==> count(Add) == 1)
+
+//@ func parentController.updateParentObject(pc, old, cur) ()
+//@   requires validPC(pc)
+//@   requires typeis(old, *unstructured.Unstructured) ==> unbox(old, *unstructured.Unstructured) != nil
+//@   requires typeis(cur, *unstructured.Unstructured) ==> unbox(cur, *unstructured.Unstructured) != nil
+//@   safety C13
+//@   let po = unbox(old, *unstructured.Unstructured)
+//@   let pn = unbox(cur, *unstructured.Unstructured)
+//@   let ignore = pc.cc.Spec.ParentResource.IgnoreStatusChanges != nil && *pc.cc.Spec.ParentResource.IgnoreStatusChanges
+//@   at parentController.enqueueParentObject(p0, o) [C14]: o == cur
+//@   ensures [C14] !called(parentController.enqueueParentObject) ==> ignore && typeis(old, *unstructured.Unstructured) && typeis(cur, *unstructured.Unstructured) && po.GetGeneration() == pn.GetGeneration() && labelsEq(po, pn) && annotationsEq(po, pn) && pn.GetDeletionTimestamp() == nil
+//@   ensures [C14] count(parentController.enqueueParentObject) <= 1
+
+//@ func parentController.resolveControllerRef(pc, childNamespace, controllerRef) (parent)
+//@   requires validPC(pc) && controllerRef != nil
+//@   safety C13
+//@   ensures [C14] parent != nil ==> controllerRef.Kind == pc.parentResource.Kind && parent.GetName() == controllerRef.Name && parent.GetUID() == controllerRef.UID && interestedIn(pc, parent) && cached(parent)
+//@   ensures [C14] parent != nil && pc.parentResource.Namespaced && childNamespace != "" ==> parent.GetNamespace() == childNamespace
+
+//@ func parentController.onChildUpdate(pc, old, cur) ()
+//@   requires validPC(pc)
+//@   requires typeis(old, *unstructured.Unstructured) && unbox(old, *unstructured.Unstructured) != nil
+//@   requires typeis(cur, *unstructured.Unstructured) && unbox(cur, *unstructured.Unstructured) != nil
+//@   safety C13
+//@   at parentController.onChildAdd(p0, o) [C14]: o == cur && unbox(old, *unstructured.Unstructured).GetResourceVersion() != unbox(cur, *unstructured.Unstructured).GetResourceVersion()
+//@   ensures [C14] called(parentController.onChildAdd) == (unbox(old, *unstructured.Unstructured).GetResourceVersion() != unbox(cur, *unstructured.Unstructured).GetResourceVersion())
+
+//@ func parentController.onChildAdd(pc, obj) ()
+//@   requires validPC(pc)
+//@   requires typeis(obj, *unstructured.Unstructured) && unbox(obj, *unstructured.Unstructured) != nil
+//@   safety C13
+//@   let child = unbox(obj, *unstructured.Unstructured)
+//@   bind call parentController.resolveControllerRef: resolved
+//@   at parentController.onChildDelete(p0, o) [C14]: child.GetDeletionTimestamp() != nil && typeis(o, *unstructured.Unstructured) && unbox(o, *unstructured.Unstructured) == child
+//@   at parentController.resolveControllerRef(p0, ns, ref) [C14]: child.GetDeletionTimestamp() == nil && hasCtrl(child) && ns == child.GetNamespace() && ref != nil && ref.UID == ctrlUID(child)
+//@   at parentController.findPotentialParents(p0, c) [C14]: child.GetDeletionTimestamp() == nil && !hasCtrl(child) && c == child
+//@   ensures [C14] child.GetDeletionTimestamp() == nil && hasCtrl(child) && (!called(parentController.resolveControllerRef) || resolved == nil) ==> !called(parentController.enqueueParentObject)
+//@   ensures [C14] child.GetDeletionTimestamp() == nil && hasCtrl(child) && called(parentController.resolveControllerRef) && resolved != nil ==> count(parentController.enqueueParentObject) == 1
+
+//@ func parentController.onChildDelete(pc, obj) ()
+//@   requires validPC(pc)
+//@   requires typeis(obj, *unstructured.Unstructured) ==> unbox(obj, *unstructured.Unstructured) != nil
+//@   requires typeis(obj, cache.DeletedFinalStateUnknown) && typeis(unbox(obj, cache.DeletedFinalStateUnknown).Obj, *unstructured.Unstructured) ==> unbox(unbox(obj, cache.DeletedFinalStateUnknown).Obj, *unstructured.Unstructured) != nil
+//@   safety C13
+//@   bind call parentController.resolveControllerRef: resolved
+//@   at parentController.enqueueParentObject(p0, o) [C14]: called(parentController.resolveControllerRef) && resolved != nil && typeis(o, *unstructured.Unstructured) && unbox(o, *unstructured.Unstructured) == resolved
+//@   ensures [C14] called(parentController.resolveControllerRef) && resolved != nil ==> count(parentController.enqueueParentObject) == 1
+//@   ensures [C14] typeis(obj, *unstructured.Unstructured) && !hasCtrl(unbox(obj, *unstructured.Unstructured)) ==> !called(parentController.enqueueParentObject) && !called(parentController.resolveControllerRef)
+
+//@ func parentController.findPotentialParents(pc, child) (parents)
+//@   requires validPC(pc) && child != nil
+//@   safety C13
+//@   bind loop 1: idx, parent
+//@   invariant loop 1 [C14]: forall j int :: 0 <= j && j < len(matchingParents) ==> matchingParents[j] != nil && cached(matchingParents[j])
+//@   ensures [C14] forall j int :: 0 <= j && j < len(parents) ==> parents[j] != nil && cached(parents[j])
